@@ -770,9 +770,10 @@ func (c *concCase) supersededBefore(x int, stamp int64) bool {
 // phaseCheck: the deterministic part of the oracle, from the per-phase query counts of the server.
 //
 // For every key the monitor tracks until when the cache certainly holds a valid answer. It is certain after a phase
-// without failures (every call fetched or found the answer, and nothing removes a valid entry); after a phase in
-// which the upstream failed for a while it is not (a fetch may have landed in an entry that an error had already
-// detached), and the checks on that key are suspended until a failure-free phase settles it again.
+// without failures (every call fetched or found the answer, and nothing removes a valid entry) and after a phase in
+// which the upstream failed for a while and at least one call for the name succeeded afterwards; after a failure blip
+// without a successful call it is not (some of the three answers may have been fetched before the call failed on
+// another), and the checks on that key are suspended until a later phase settles it again.
 func (c *concCase) phaseCheck(byPhaseName map[string][]*concCall) {
 	type det struct {
 		until   int64
@@ -846,8 +847,19 @@ func (c *concCase) phaseCheck(byPhaseName map[string][]*concCall) {
 					d.until = ph.Clock + tau
 				case d.certain && ph.Kind == pkFailing:
 					// nothing can be fetched; the entry stays invalid
+				case d.certain && ok > 0:
+					// failure blip, and a call for this name succeeded: no valid answer was cached when the phase began
+					// and the clock stands still inside a phase, so this answer was fetched in this phase - by that call
+					// or by one it waited for - after the upstream had recovered. It is within its TTL until now+ttl and
+					// "within the TTL serves repeated lookups from its cache" holds for it like for any other answer,
+					// whatever failed before it in the phase.
+					if q[k] == 0 {
+						c.viol("conc:no-upstream-query-after-expiry", ex, "phase %d at second %d: %d Resolve(%s) calls succeeded without any upstream %s query although no answer within its TTL was cached (valid until second %d)", p, ph.Clock, ok, name, qnames[k], d.until)
+					}
+					d.until = ph.Clock + tau
+					c.counts["conc_keys_fetched_after_blip"]++
 				case d.certain:
-					// failure blip: the key may have been fetched (valid until now+ttl) or not, or fetched into a detached entry
+					// failure blip without any successful call: the key may have been fetched (valid until now+ttl) or not
 					d.certain, d.cands = false, []int64{ph.Clock + tau}
 					c.counts["conc_keys_uncertain_after_blip"]++
 				case !clean && ph.Kind != pkFailing: // another blip while uncertain
